@@ -158,7 +158,8 @@ Definition agroup_ok (g : agroup) : bool := wsk (ag_ws0 g) && forallb (fun wa =>
 Definition pgroup_ok (g : pgroup) : bool :=
   wsk (pg_ws0 g) && forallb (fun wp => wsk (fst wp) && pterm_ok (snd wp)) (pg_terms g) && wsk (pg_ws1 g).
 Definition aver_ok (v : aver) : bool :=
-  wsk (av_ws0 v) && wsk (av_ws1 v) && op_ok (av_op v) && wsk (av_ws2 v) && nonempty (av_ver v) && wsk (av_ws3 v).
+  wsk (av_ws0 v) && wsk (av_ws1 v) && op_ok (av_op v) && wsk (av_ws2 v) && nonempty (av_ver v) && wsk (av_ws3 v)
+  && (nonempty (av_op v) || is_nil (av_ws2 v)).      (* without an operator there is ONE run of white space *)
 Definition aqual_ok (q : aqual) : bool := wsk (aq_ws0 q) && wsk (aq_ws1 q).
 Definition arel_ok (r : arel) : bool :=
   opt_ok aqual_ok (a_qual r) && opt_ok aver_ok (a_ver r) && opt_ok agroup_ok (a_archs r)
